@@ -13,9 +13,14 @@ import (
 // heuristic knobs, entry points, live versus fresh solver) and evaluates replies directly; it decides
 // nothing: only the validated execution of a selected case can become a verdict.
 func scanCandidates(env *core.Env, mode string, perShard int, cp bool, conv func(f gen.M) []core.Case) []core.Case {
+	return scanCandidatesN(env, mode, perShard, cp, 12, 120, conv)
+}
+
+// scanCandidatesN: at most maxFound selected inputs per process, at most total cases overall.
+func scanCandidatesN(env *core.Env, mode string, perShard int, cp bool, maxFound, total int, conv func(f gen.M) []core.Case) []core.Case {
 	var scans []core.Case
 	for k := 0; k < 16; k++ {
-		scans = append(scans, gen.M{"drv": "scan", "mode": mode, "cp": cp, "seed": env.Rand.Intn(1 << 30), "count": perShard, "maxFound": 12,
+		scans = append(scans, gen.M{"drv": "scan", "mode": mode, "cp": cp, "seed": env.Rand.Intn(1 << 30), "count": perShard, "maxFound": maxFound,
 			"budgetMs": 900000, "ev": []gen.M{}})
 	}
 	core.AssignIDs("scan-"+mode+"-", scans)
@@ -38,8 +43,8 @@ func scanCandidates(env *core.Env, mode string, perShard int, cp bool, conv func
 			}
 		}
 	}
-	if len(res) > 120 {
-		res = res[:120]
+	if len(res) > total {
+		res = res[:total]
 	}
 	env.Logf("candidate scan %s: %d generated inputs run on the real code in several variants, %d candidate cases selected", mode, scanned, len(res))
 	return res
@@ -137,4 +142,19 @@ func scanCount(f gen.M) []core.Case {
 	cfg := gen.Cfg(false, n(f, "reduceAt"), n(f, "restartEvery"), false, false, true)
 	c := gen.APICase("slicenb", n(f, "n"), true, gen.ClauseCtors(clausesOf(f)), false, nil, cfg, []gen.M{op})
 	return []core.Case{deepCopy(c)}
+}
+
+// scanMaxSat: C04. Each selected instance goes through both routes (WCNF text, constraint API twice).
+func scanMaxSat(f gen.M) []core.Case {
+	var cons []gen.M
+	for _, k := range sub(f, "cons") {
+		c := gen.Ctor("clause", toInts(k["lits"]), toInts(k["w"]), 1)
+		c["weight"] = n(k, "weight")
+		cons = append(cons, c)
+	}
+	w := gen.M{"drv": "maxsat", "route": "wcnf", "n": n(f, "n"), "cons": cons, "top": n(f, "top"),
+		"cfg": gen.M{"layout": 0, "layoutSeed": 0, "cap": 0}, "ev": []gen.M{gen.OpChan("optimal", false)}}
+	a := gen.M{"drv": "maxsat", "route": "api", "n": n(f, "n"), "cons": cons, "top": 0,
+		"cfg": gen.M{"layout": 0, "layoutSeed": 0, "cap": 0}, "ev": []gen.M{gen.Op("solve"), gen.Op("solve"), gen.Op("solve")}}
+	return []core.Case{deepCopy(w), deepCopy(a)}
 }
